@@ -499,6 +499,36 @@ example (t : List UInt8) : ∃ m, decode Gen.layouts (rawCoder 5) {} (C04ex.byte
   have : RT.visitsHaveData (RT.encodeVisits Gen.layouts {} C04ex.vals C04ex.payload) = true := by decide +kernel
   rw [this]; rfl
 
+/-- the registries `hdec` quantifies over, on the example: the encoder's registry at the template data … -/
+theorem C04ex.dataReg : (RT.encodeVisits Gen.layouts {} C04ex.vals C04ex.payload).filterMap
+      (fun v => if RT.hasData v.s.params then
+        some (let r := register v.reg v.start 0 (RT.beforeData v.s.params) v.vs
+              (r.get? "n_subsets", r.get? "is_compressed", r.get? "unexpanded_descriptors")) else none) =
+    [(some ⟨.int 1, 16, 240⟩, some ⟨.bool false, 1, 257⟩,
+      some ⟨.descs [31031, 31031, 31031, 31031, 31031], 0, 264⟩)] := by decide +kernel
+
+/-- … and every decoder registry related to it holds exactly the supplied number of subsets and
+    descriptor list (lengths are recomputed: no null descriptors appended), so a data coder that derives
+    its template from these properties sees what was supplied -/
+example (rE rD : Registry) (hE1 : rE.get? "n_subsets" = some ⟨.int 1, 16, 240⟩)
+    (hE2 : rE.get? "unexpanded_descriptors" = some ⟨.descs [31031, 31031, 31031, 31031, 31031], 0, 264⟩)
+    (h : RT.RegRel (({} : EncCfg).ignoreDeclared = true) rE rD) :
+    (rD.get? "n_subsets").map (·.val) = some (.int 1) ∧
+    (rD.get? "unexpanded_descriptors").map (·.val) = some (.descs [31031, 31031, 31031, 31031, 31031]) := by
+  obtain ⟨e1, h1, _, _, p1⟩ := RT.RegRel_lookup h _ _ hE1
+  obtain ⟨e2, h2, _, _, p2⟩ := RT.RegRel_lookup h _ _ hE2
+  refine ⟨?_, ?_⟩
+  · rw [h1]
+    rcases p1 with (h0 | h0) | h0
+    · exact absurd h0 (by decide)
+    · exact absurd h0 (by decide)
+    · simp [h0]
+  · rw [h2]
+    obtain ⟨k, hk, hk0⟩ := p2
+    have := hk0 rfl
+    subst this
+    simp [hk]
+
 /-- non-vacuity: the bundled family meets the hypothesis, and a concrete edition-3 message with a
     5-bit payload encodes (so the conclusions above speak about something) -/
 example : (encode Gen.layouts {} [[.bytes startSig, .int 0, .int 3],
